@@ -71,10 +71,10 @@ PROPS["C18"] = {
 
 PROPS["C20"] = {
     "explanation": "Bounded symbolic execution (gosx) of the real device.CompareFiles -> getRealDevice, loadSpoc, ParseConfig (cisco: lookupCmd, matchCmd, postprocessParsed, postprocessACLParts, checkReferences; linux: parseIPTables, parseRoutes), MergeSpoc and GetChanges on the repository's own test configurations in which one line is replaced by a solver-chosen member of the property's mutation family (word-prefix truncations, single-token deletions, duplications, swaps, indentation changes). Any Go run-time panic that is not errlog's bailout, and any exit status other than 0/1, is a violation; each is replayed natively.",
-    "bounds": {"quick": "ASA, IOS and Linux file-compare cases of go/testdata (files of at most 60 lines): one representative line per kind (model, argument position, indentation, first three words, word count), up to 63 mutations per line, both argument positions (device file, Netspoc code, raw, ipv6)",
+    "bounds": {"quick": "ASA, IOS, Linux (files of at most 60 lines), NSX and PAN-OS (at most 120 lines, one representative per distinct line text) file-compare cases of go/testdata: one representative line per kind (model, argument position, indentation, first three words, word count), up to 63 mutations per line, both argument positions (device file, Netspoc code, raw, ipv6)",
                "thorough": "every (case, file, line) triple"},
-    "outside": "NSX (JSON) and PAN-OS (XML) inputs at byte level, info file and status file contents, do-approve and missing-approve front ends, hangs (step budget only), mutations of more than one line at a time",
-    "selftest": "asa_raw|ios_raw|linux_raw", "selftest_thorough": "asa_|ios_|linux",
+    "outside": "mutations inside a JSON / XML token (the family is word based), info file and status file contents, do-approve and missing-approve front ends, hangs (step budget only), mutations of more than one line at a time",
+    "selftest": "asa_raw|ios_raw|linux_raw|nsx", "selftest_thorough": "asa_|ios_|linux|nsx|pan-os",
     "runs": [
         {"entry": M + "/pkg/device.VerifMutateLine", "needs_cases": True,
          "quick": {"dedupe": "1", "stride": "1"}, "thorough": {"stride": "1"},
